@@ -22,9 +22,10 @@ func init() {
 		req = append(req, fmt.Sprintf("accepted: data length mod 5 = %d", r))
 	}
 	fw.Register(&fw.Prop{
-		ID:       "C05",
-		Builds:   []string{"default", "386"}, // the 386 build runs a quarter of the random classes on a 32-bit target
-		Parallel: 4,                          // cases are judged on 4 goroutines per shard: the library functions are stateless, shared state inside them shows up as wrong verdicts
+		ID:                  "C05",
+		DeadlockIsViolation: true,                       // the calls of this property are synchronous functions of their inputs: a call blocked for good inside the library is a violation
+		Builds:              []string{"default", "386"}, // the 386 build runs a quarter of the random classes on a 32-bit target
+		Parallel:            4,                          // cases are judged on 4 goroutines per shard: the library functions are stateless, shared state inside them shows up as wrong verdicts
 		Rule: "(hrp, data) pairs: every data length 0..55 x hrp length chosen so that the result has 86..93 characters (both sides of the limit; an empty hrp where that is what it takes) x hrp kind (lower-case letters, upper-case letters, digits only, any of 33..126 in one case, with '1' inside) x data pattern (zero, 0xff, random, single bit); random pairs with hrp length 1..83 and data length 0..51; far too long inputs whose would-be length lies in [256, 352), [512, 608) or [65536, 65632) (a length kept in 8 or 16 bits wraps to a value around the real limit), through long data, a long human-readable part, or both; " +
 			"invalid hrps: empty, mixed case, every byte 0..32 and 127..255 at the first/middle/last position, multi-byte runes (incl. U+212A, U+0130, U+0131, U+017F), invalid UTF-8, each with short data so that only the hrp decides; over-long data 52..70 bytes. " +
 			"Every Encode call: success iff the model's domain (1 <= len(hrp), chars 33..126, one case, len(hrp)+1+ceil(8n/5)+6 <= 90), string equal to the model's, empty string on error, Decode(result) == (lower(hrp), data). " +
